@@ -224,6 +224,14 @@ fn main() {
         }
         "replay" => replay(&a[1]),
         "distinct" => distinct(&a[1..]),
+        // liveness self-test of the sanitizer build: a deliberate heap read one element past an
+        // allocation. Under AddressSanitizer the process dies with a report; a plain build prints a line.
+        "sanitizer-selftest" => {
+            let v: Vec<u8> = std::hint::black_box(vec![1u8; 24]);
+            let p = v.as_ptr();
+            let x = unsafe { std::ptr::read_volatile(p.add(std::hint::black_box(24))) };
+            println!("no sanitizer report (read {x})");
+        }
         "c11child" => mon_j::child(&a[1], a[2].parse().unwrap_or(1), &a[3]),
         "events" => {
             use std::io::Read;
